@@ -454,6 +454,6 @@ func init() {
 		ID: "C19", Num: 19,
 		Gen:  genC19,
 		New:  func() Case { return &c19Case{} },
-		Rule: "database workloads of 3-20 (thorough: up to 200) rotation/flush/compaction cycles with open/close rounds: after EVERY step the descriptors (/proc/self/fd) and mappings (/proc/self/maps) under the database directory and the goroutine count are measured (GC disabled so finalizers cannot hide a leak) and compared with the number of live tables; after Close all must be zero and the directory removable; table-reader / RecordIO reader / writer sequences with complete, abandoned and range scanners, then Close. Non-trivial: >=5 steps or >=3 scanners.",
+		Rule: "reader sequences also open / use / close a table reader per index loader (slice, skip list, map, disk), readers and writers that take over an open file, and the proto readers; database workloads of 3-20 (thorough: up to 200) rotation/flush/compaction cycles with open/close rounds: after EVERY step the descriptors (/proc/self/fd) and mappings (/proc/self/maps) under the database directory and the goroutine count are measured (GC disabled so finalizers cannot hide a leak) and compared with the number of live tables; after Close all must be zero and the directory removable; table-reader / RecordIO reader / writer sequences with complete, abandoned and range scanners, then Close. Non-trivial: >=5 steps or >=3 scanners.",
 	})
 }
